@@ -42,7 +42,7 @@ def mk_mapping(i, path, scale=1, opts=()):
             omit.add(o)
     return Mapping(0x1000 * (1 + 16 * i), 0x1000 * (9 + 16 * i), perms=["r-xp", "rw-p", "r--s"][i % 3], offset=0x10 * i,
                    inode=100 + i if path and not path.startswith(b"[") else 0, path=path, kb=kb,
-                   thp=(True if "thp" in opts else None), vmflags=(b"rd ex mr" if "vmflags" in opts else None),
+                   thp=("tab" if "thptab" in opts else (True if "thp" in opts else None)), vmflags=(b"rd ex mr" if "vmflags" in opts else None),
                    pkey=(0 if "pkey" in opts else None), omit=omit)
 
 
@@ -138,6 +138,23 @@ def _run_case(case, st):
             if ga != rows or gb != rows or gc_ != grouped or ge != grouped or (d.uss, d.pss, d.swap) != (uss, pss, swap):
                 bad.append(("in-oneshot-block:repeated-calls-differ", "inside one block: ungrouped %r / %r, grouped %r / %r, full %r; expected %r / %r / %r"
                             % (ga == rows, gb == rows, gc_ == grouped, ge == grouped, (d.uss, d.pss, d.swap), rows, grouped, (uss, pss, swap))))
+        # a block that read the listing and was then left by an exception; afterwards the process maps one more file: calls made
+        # outside any block report the mappings as they are now
+        def boom():
+            with pr.oneshot():
+                pr.memory_maps(grouped=False)
+                pr.memory_full_info()
+                raise KeyError("left by an exception")
+        outcome(boom)
+        p.maps = p.maps + [mk_mapping(len(paths) + 3, b"/lib/late.so", scale, opts)]
+        uss2, pss2, swap2, rows2, grouped2 = ref(w, p.maps)
+        got = outcome(pr.memory_maps, grouped=False)
+        g = [dict(addr=r.addr, perms=r.perms, path=r.path, **{f: getattr(r, f) for f in FIELDS}) for r in got[1]] if got[0] == "ok" else got
+        if g != rows2:
+            bad.append(("memory_maps:stale-after-a-block-left-by-an-exception", "got %r expected %r" % (g, rows2)))
+        got = outcome(pr.memory_full_info)
+        if got[0] != "ok" or (got[1].uss, got[1].pss, got[1].swap) != (uss2, pss2, swap2):
+            bad.append(("memory_full_info:stale-after-a-block-left-by-an-exception", "got %r expected %r" % (freeze(got), (uss2, pss2, swap2))))
         return bad
     if k == "percent-seq":
         # the total that memory_percent() divides by is the one of the LATEST virtual_memory() reading
@@ -206,6 +223,8 @@ def build_cases(thorough):
         for sub in itertools.combinations(OPTS, r):
             for mode in ("rollup", "rollup-enoent"):
                 cases.append(("maps", ["/lib/a.so", ""], 1, sub, mode))
+    for mode in ("rollup", "rollup-enoent"):
+        cases.append(("maps", ["/lib/a.so", "", "[heap]"], 1, ("thptab", "vmflags"), mode))
     for scale in (2 ** 20, 2 ** 30):            # figures up to ~2^36 kB (tens of TB)
         for mode in ("rollup", "rollup-enoent"):
             cases.append(("maps", ["/lib/a.so", "", "/lib/a.so"], scale, ("Private_Hugetlb",), mode))
